@@ -8,6 +8,16 @@ import numpy as np
 ARR = [None]      # optional callback turning a matrix into a guarded user array
 
 
+ARRI = [None]     # same for integer parameter arrays (exponents, weights)
+
+
+def _ia(v):
+    """integer parameters as the user's ndarray (guarded) or, every other time, as a list."""
+    if ARRI[0] is not None and isinstance(v, list) and (sum(v) + len(v)) % 2 == 0:
+        return ARRI[0](np.array(v))
+    return v
+
+
 def _q(pr):
     a = np.array(pr['Q'], float)
     return ARR[0](a) if ARR[0] is not None else a
@@ -61,7 +71,7 @@ ATOMS = {
     'gmean': dict(curv=-1, kind='scalar', cone='Q', dom=lambda u, pr: np.all(u >= -1e-7),
                   val=lambda u, pr: float(np.prod(np.maximum(u, 0) ** (
                       np.array(pr['beta'], float) / np.sum(pr['beta'])))),
-                  build=lambda rso, e, pr: rso.gmean(e, pr['beta']) if not pr.get('unit')
+                  build=lambda rso, e, pr: rso.gmean(e, _ia(pr['beta'])) if not pr.get('unit')
                   else rso.gmean(e)),
     'exp': dict(curv=1, kind='elem', cone='X',
                 val=lambda u, pr: np.exp(u), build=lambda rso, e, pr: rso.exp(e)),
@@ -129,7 +139,10 @@ def random_params(rng, atom, m):
     if atom == 'gmean':
         if rng.random() < 0.25:
             return {'beta': [1] * m, 'unit': True}
-        return {'beta': rng.integers(1, 8, m).tolist()}
+        beta = rng.integers(1, 8, m)
+        if rng.random() < 0.3:
+            beta = beta * int(rng.integers(2, 4))      # weights with a common factor
+        return {'beta': beta.tolist()}
     if atom in ('pexp', 'plog'):
         return {'scale': float(np.round(rng.uniform(0.4, 2.5), 2))}
     if atom in ('norminf', 'norm2'):
